@@ -118,6 +118,9 @@ func (c09) Run(c *mon.Ctx, i int) {
 			prev := 0
 			fl := append([]int(nil), flushes...)
 			for _, c := range cuts {
+				if c > n {
+					c = n
+				}
 				for len(fl) > 0 && fl[0] <= c {
 					if fl[0] > prev {
 						ops = append(ops, gen.Op{Kind: "write", N: fl[0] - prev})
